@@ -12,3 +12,4 @@ import Dasp.Props.C16
 import Dasp.Props.C17
 import Dasp.Props.C11
 import Dasp.Props.C19
+import Dasp.Props.C15
